@@ -89,6 +89,16 @@ class Node:
 
         Use :meth:`is_scalar` to check which type the node has.
         """
+        try:
+            return self.__get_value()
+        except (ValueError, KeyError, IndexError, OverflowError) as e:
+            # e.g. 0x_ or !!int abc, there's something wrong with the input
+            raise SeasoningError(
+                    'Invalid value "{}" for a scalar with tag {}: {}'.format(
+                        self.yaml_node.value, self.yaml_node.tag, e))
+
+    def __get_value(self) -> ScalarType:
+        """Converts the scalar's text to a value, may raise."""
         if self.yaml_node.tag == 'tag:yaml.org,2002:str':
             return str(self.yaml_node.value)
         if self.yaml_node.tag == 'tag:yaml.org,2002:int':
@@ -1068,7 +1078,7 @@ class UnknownNode:
                             ('Incorrect attribute type where value {}'
                              ' of type {} was required').format(
                                 value, type(value)))
-                if node.get_value() != value:
+                if self.__get_value(node) != value:
                     raise RecognitionError((
                         'Incorrect attribute value {} where {} was required'
                             ).format(value_node.value, value))
@@ -1076,6 +1086,17 @@ class UnknownNode:
         if not found:
             raise RecognitionError(
                     'Required key "{}" not found'.format(attribute))
+
+    def __get_value(self, node: Node) -> ScalarType:
+        """Gets the value of a scalar node while recognizing.
+
+        Raises:
+            yatiml.RecognitionError: If the scalar is malformed.
+        """
+        try:
+            return node.get_value()
+        except SeasoningError as e:
+            raise RecognitionError(e.args[0])
 
     def require_attribute_value_not(
             self, attribute: str,
@@ -1103,7 +1124,7 @@ class UnknownNode:
                 node = Node(value_node)
                 if not node.is_scalar(type(value)):
                     return
-                if node.get_value() == value:
+                if self.__get_value(node) == value:
                     raise RecognitionError(
                             (
                                 'Incorrect attribute value {} where {} was not'
